@@ -285,7 +285,7 @@ public:
       if (lowerBound_ <= pi->lowerBound_)
       {
         lowerBound = pi->lowerBound_;
-        inclLowerBound = pi->inclLowerBound_;
+        inclLowerBound = pi->inclLowerBound_ && (lowerBound_ < pi->lowerBound_ || inclLowerBound_);
       }
       else
       {
@@ -296,7 +296,7 @@ public:
       if (upperBound_ >= pi->upperBound_)
       {
         upperBound = pi->upperBound_;
-        inclUpperBound = pi->inclUpperBound_;
+        inclUpperBound = pi->inclUpperBound_ && (upperBound_ > pi->upperBound_ || inclUpperBound_);
       }
       else
       {
@@ -324,14 +324,14 @@ public:
 
       if (lowerBound_ <= pi.lowerBound_)
       {
+        inclLowerBound_ = pi.inclLowerBound_ && (lowerBound_ < pi.lowerBound_ || inclLowerBound_);
         lowerBound_ = pi.lowerBound_;
-        inclLowerBound_ = pi.inclLowerBound_;
       }
 
       if (upperBound_ >= pi.upperBound_)
       {
+        inclUpperBound_ = pi.inclUpperBound_ && (upperBound_ > pi.upperBound_ || inclUpperBound_);
         upperBound_ = pi.upperBound_;
-        inclUpperBound_ = pi.inclUpperBound_;
       }
       if (pi.getPrecision() > precision_)
         precision_ = pi.getPrecision();
